@@ -195,12 +195,19 @@ Proof.
   - exists c. split; [exact R1|]. cbn [vrel gleaf gg gco gfin]. cbn [app] in R3. unfold gheight in R4. rewrite zlen_nil in R4. auto.
 Qed.
 
+(* _drop_cursor_outside on a well-formed canvas is the grid's *)
+Lemma drop_rel s g co : WF s -> content s = Ok g -> drop_cursor_outside s co = g_drop_cursor g co.
+Proof.
+  intros W C. destruct (WF_content_grid _ _ W C) as (_ & Eh & Ew). unfold drop_cursor_outside, g_drop_cursor. now rewrite Eh, Ew.
+Qed.
+
 (* ------------------------------------------------------------------ trim / trim_end *)
 Lemma comp_trim_rel c gv top count :
   vrel (VComp c) gv -> gfin gv = false -> 0 <= top < gheight (gg gv) ->
   match count with None => True | Some n => 0 < n end ->
   exists c', comp_trim c top count = Ok c' /\
-             vrel (VComp c') (GV (g_trim (gg gv) top count) (translate_coords (gco gv) 0 (- top)) false false).
+             vrel (VComp c') (GV (g_trim (gg gv) top count)
+                                 (g_drop_cursor (g_trim (gg gv) top count) (translate_coords (gco gv) 0 (- top))) false false).
 Proof.
   intros (Hl & W & C & Eco & Ef) Hf Ht Hc. cbn [cshards ccoords cfin] in *.
   destruct (WF_content_grid _ _ W C) as (G & Eh & Ec).
@@ -213,20 +220,21 @@ Proof.
   rewrite Es1. destruct count as [n|].
   - destruct (n =? 0) eqn:E4; [lia|].
     destruct (trim_rows_shards _ n _ W1 Hc C1) as (s2 & A & B & D & _). rewrite A.
-    eexists; split; [reflexivity|]. cbn [vrel cshards ccoords cfin gleaf gg gco gfin g_trim]. rewrite Eco. auto.
-  - eexists; split; [reflexivity|]. cbn [vrel cshards ccoords cfin gleaf gg gco gfin g_trim]. rewrite Eco. auto.
+    eexists; split; [reflexivity|]. cbn [vrel cshards ccoords cfin gleaf gg gco gfin g_trim]. rewrite Eco, (drop_rel _ _ _ B D). auto.
+  - eexists; split; [reflexivity|]. cbn [vrel cshards ccoords cfin gleaf gg gco gfin g_trim]. rewrite Eco, (drop_rel _ _ _ W1 C1). auto.
 Qed.
 
 Lemma comp_trim_end_rel c gv e :
   vrel (VComp c) gv -> gfin gv = false -> 0 < e < gheight (gg gv) ->
   exists c', comp_trim_end c e = Ok c' /\
-             vrel (VComp c') (GV (takez (gheight (gg gv) - e) (gg gv)) (gco gv) false false).
+             vrel (VComp c') (GV (takez (gheight (gg gv) - e) (gg gv))
+                                 (g_drop_cursor (takez (gheight (gg gv) - e) (gg gv)) (gco gv)) false false).
 Proof.
   intros (Hl & W & C & Eco & Ef) Hf He. cbn [cshards ccoords cfin] in *.
   destruct (WF_content_grid _ _ W C) as (G & Eh & Ec).
   unfold comp_trim_end. destruct (e <=? 0) eqn:E1; [lia|]. destruct (shards_rows (cshards c) <? e) eqn:E2; [lia|].
   rewrite Ef, Hf. destruct (trim_rows_shards _ (shards_rows (cshards c) - e) _ W ltac:(lia) C) as (s2 & A & B & D & _). rewrite A.
-  eexists; split; [reflexivity|]. cbn [vrel cshards ccoords cfin gleaf gg gco gfin]. rewrite Eh. auto.
+  eexists; split; [reflexivity|]. cbn [vrel cshards ccoords cfin gleaf gg gco gfin]. rewrite Eh, Eco, (drop_rel _ _ _ B D). auto.
 Qed.
 
 (* ------------------------------------------------------------------ pad_trim_top_bottom *)
@@ -244,7 +252,7 @@ Qed.
 Lemma comp_pad_trim_top_bottom_rel c gv t b :
   vrel (VComp c) gv -> gfin gv = false -> 0 < gheight (gg gv) + Z.min t 0 + Z.min b 0 ->
   exists c', comp_pad_trim_top_bottom c t b = Ok c' /\
-             vrel (VComp c') (GV (g_pad_trim_tb (gg gv) t b) (translate_coords (gco gv) 0 t) false false).
+             vrel (VComp c') (GV (g_pad_trim_tb (gg gv) t b) (g_padtb_coords (gg gv) t b (gco gv)) false false).
 Proof.
   intros R Hf Hd. pose proof R as (Hl & W & C & Eco & Ef). cbn [cshards ccoords cfin] in *.
   destruct (WF_content_grid _ _ W C) as (G & Eh & Ec).
@@ -252,12 +260,14 @@ Proof.
   set (tt0 := Z.max 0 (- t)). set (bb0 := Z.max 0 (- b)).
   assert (exists c1, (if (t <? 0) || (b <? 0) then comp_trim c tt0 (Some (shards_rows (cshards c) - tt0 - bb0)) else Ok c) = Ok c1 /\
                      WF (cshards c1) /\ content (cshards c1) = Ok (takez (gheight (gg gv) - tt0 - bb0) (dropz tt0 (gg gv))) /\
-                     ccoords c1 = translate_coords (gco gv) 0 (- tt0) /\ cfin c1 = false) as (c1 & E1 & W1 & C1 & Eco1 & Ef1).
+                     ccoords c1 = (if (t <? 0) || (b <? 0)
+                                   then g_drop_cursor (takez (gheight (gg gv) - tt0 - bb0) (dropz tt0 (gg gv))) (translate_coords (gco gv) 0 (- tt0))
+                                   else gco gv) /\ cfin c1 = false) as (c1 & E1 & W1 & C1 & Eco1 & Ef1).
   { destruct ((t <? 0) || (b <? 0)) eqn:E.
     - destruct (comp_trim_rel c gv tt0 (Some (shards_rows (cshards c) - tt0 - bb0)) R Hf) as (c1 & A & (_ & B & D & F & H)); [lia|lia|].
       exists c1. cbn [cshards ccoords cfin gg gco gfin g_trim] in *. rewrite Eh. auto.
     - exists c. assert (tt0 = 0) by lia. assert (bb0 = 0) by lia. rewrite H, H0. rewrite dropz_le0 by lia.
-      rewrite takez_all by (unfold gheight; lia). replace (- 0) with 0 by lia. rewrite translate_coords_0. rewrite Ef, Hf. auto. }
+      rewrite takez_all by (unfold gheight; lia). rewrite Ef, Hf. auto. }
   rewrite E1.
   destruct (WF_content_grid _ _ W1 C1) as (G1 & Eh1 & Ec1).
   assert (gwidth (takez (gheight (gg gv) - tt0 - bb0) (dropz tt0 (gg gv))) = gwidth (gg gv)) as Ew1.
@@ -267,15 +277,15 @@ Proof.
   set (c2 := if 0 <? t then Comp ((t, [CV 0 0 w t None blank_canvas]) :: cshards c1) (translate_coords (ccoords c1) 0 t) false else c1).
   assert (WF (cshards c2) /\ shards_cols (cshards c2) = w /\
           content (cshards c2) = Ok (blank_grid w (Z.max 0 t) ++ takez (gheight (gg gv) - tt0 - bb0) (dropz tt0 (gg gv))) /\
-          ccoords c2 = translate_coords (gco gv) 0 t) as (W2 & Ec2 & C2 & Eco2).
+          ccoords c2 = g_padtb_coords (gg gv) t b (gco gv)) as (W2 & Ec2 & C2 & Eco2).
   { subst c2. destruct (0 <? t) eqn:E.
     - destruct (blank_shard w t) as (A & B & D); [lia|lia|]. cbn [cshards ccoords].
       destruct (combine_shards _ _ _ _ A W1 ltac:(fold w; lia) B C1) as (A' & B' & D' & _). cbn [app] in A', B', D'.
       replace (Z.max 0 t) with t by lia. split; [exact A'|]. split; [etransitivity; [exact D'|exact D]|]. split; [exact B'|].
-      rewrite Eco1, translate_translate. apply translate_coords_eq; lia.
+      unfold g_padtb_coords. fold tt0 bb0. rewrite E. now rewrite Eco1.
     - replace (Z.max 0 t) with 0 by lia. unfold blank_grid.
       unfold repeatz. replace (Z.to_nat 0) with O by lia. cbn [repeat app]. split; [exact W1|]. split; [reflexivity|]. split; [exact C1|].
-      rewrite Eco1. apply translate_coords_eq; lia. }
+      unfold g_padtb_coords. fold tt0 bb0. rewrite E. exact Eco1. }
   eexists; split; [reflexivity|]. cbn [vrel cshards ccoords cfin gleaf gg gco gfin]. fold c2.
   split; [reflexivity|]. unfold g_pad_trim_tb. fold tt0 bb0. rewrite <- Hw.
   destruct (0 <? b) eqn:E.
